@@ -147,6 +147,7 @@ import (
 	"encoding/json"
 	"fmt"
 	"os"
+	"time"
 )
 
 type replay struct {
@@ -279,4 +280,25 @@ func GoCount() int   { return 0 }
 func RunGo(i int)    {}
 func MapOrder(on bool) {}
 func IsConcrete(x interface{}) bool { return true }
+
+// CondSignals is only meaningful symbolically (number of sync.Cond.Signal/Broadcast calls so far).
+func CondSignals() int { return 0 }
+
+// ExpectBlock: the code called next is expected to block forever. Natively a watchdog ends the process
+// quietly (nothing reproduced) if the harness is still stuck after 300ms; ExpectBlock("") disarms it.
+var blockTimer *time.Timer
+
+func ExpectBlock(label string) {
+	if blockTimer != nil {
+		blockTimer.Stop()
+		blockTimer = nil
+	}
+	if label == "" {
+		return
+	}
+	blockTimer = time.AfterFunc(300*time.Millisecond, func() {
+		fmt.Printf("VRT-BLOCKED-AS-EXPECTED label=%s\n", label)
+		os.Exit(0)
+	})
+}
 `
